@@ -124,6 +124,11 @@ type vAsset struct {
 	BodyD  string `json:"body"` // description
 	Status int    `json:"status"`
 	Fail   string `json:"fail"` // "" | "transport" | "midbody"
+	// Later, if non-nil, is served instead of Body from the second request for this asset on
+	// (a server whose answers change between requests; added after seeded change C51-1)
+	Later   []byte `json:"-"`
+	LaterD  string `json:"later_body,omitempty"`
+	nserved int
 }
 
 type vScenario struct {
@@ -138,10 +143,11 @@ type vScenario struct {
 }
 
 type vTransport struct {
-	sc      *vScenario
-	served  map[string][]byte // asset name -> body completely served
-	order   []string
-	nreq    int
+	sc     *vScenario
+	served map[string][]byte   // asset name -> body completely served (last one)
+	all    map[string][][]byte // asset name -> every body version completely served
+	order  []string
+	nreq   int
 }
 
 type vErrBody struct {
@@ -199,8 +205,17 @@ func (t *vTransport) RoundTrip(req *http.Request) (*http.Response, error) {
 			case a.Fail == "midbody":
 				return resp(200, &vErrBody{data: a.Body[:len(a.Body)/2]}, "application/octet-stream"), nil
 			}
-			t.served[a.Name] = a.Body
-			return resp(200, io.NopCloser(bytes.NewReader(a.Body)), "application/octet-stream"), nil
+			body := a.Body
+			if a.Later != nil && a.nserved > 0 {
+				body = a.Later
+			}
+			a.nserved++
+			t.served[a.Name] = body
+			if t.all == nil {
+				t.all = map[string][][]byte{}
+			}
+			t.all[a.Name] = append(t.all[a.Name], body)
+			return resp(200, io.NopCloser(bytes.NewReader(body)), "application/octet-stream"), nil
 		}
 	}
 	return resp(404, io.NopCloser(strings.NewReader("not found")), "text/plain"), nil
@@ -221,6 +236,8 @@ var vMutations = []string{
 	"archive-flip", "archive-truncated", "archive-other", "archive-garbage-listed-resigned", "archive-empty", "archive-missing", "archive-name-prefixed-resigned",
 	"http-api-403", "http-sums-404", "http-sig-500", "http-archive-404", "http-archive-transport", "http-archive-midbody", "http-sums-midbody",
 	"same-version", "evil-sums-asset-first", "evil-sig-asset-first",
+	// added after seeded changes C51-1 / C51-2
+	"sums-changes-on-second-request", "sums-and-sig-change-on-second-request", "sums-dir-prefixed-entry-resigned", "sums-dir-prefixed-entry-first-resigned",
 }
 
 // vBuild constructs a scenario: a valid release, then the named mutations applied.
@@ -257,6 +274,8 @@ func vBuild(fx *vFix, rng *kit.RNG, idx int, realKey bool, muts []string) *vScen
 	dropSums, dropSig, dropArch := false, false, false
 	failAsset := map[string][2]string{} // asset role -> (status, fail)
 	appendUnsigned := ""
+	var laterSums func() []byte // body of the checksum file from the second request on
+	laterSigForeign := false
 
 	for _, m := range muts {
 		switch m {
@@ -369,6 +388,37 @@ func vBuild(fx *vFix, rng *kit.RNG, idx int, realKey bool, muts []string) *vScen
 			archBody = []byte{}
 		case "archive-missing":
 			dropArch = true
+		case "sums-changes-on-second-request", "sums-and-sig-change-on-second-request":
+			// first answer: the genuine signed list; later answers: a list naming the hash of the
+			// (tampered) archive that is served. A correct client uses ONE list for both steps.
+			archBody = fx.archives[po]
+			evil := fx.archives[po]
+			laterSums = func() []byte {
+				var ls []string
+				for _, l := range lines {
+					if strings.HasSuffix(l, "  "+arch) {
+						l = line(evil, arch)
+					}
+					ls = append(ls, l)
+				}
+				return []byte(strings.Join(ls, "\n") + "\n")
+			}
+			laterSigForeign = m == "sums-and-sig-change-on-second-request"
+		case "sums-dir-prefixed-entry-resigned", "sums-dir-prefixed-entry-first-resigned":
+			// a validly signed list whose only / first entry ending in the asset name carries a
+			// directory prefix and the hash of ANOTHER archive, which is what the server delivers
+			archBody = fx.archives[po]
+			pref := kit.Pick(rng, []string{"nightly/", "./", "old/../", "/"})
+			evilLine := line(fx.archives[po], pref+arch)
+			if m == "sums-dir-prefixed-entry-first-resigned" {
+				lines = append([]string{evilLine}, lines...)
+			} else {
+				for i, l := range lines {
+					if strings.HasSuffix(l, "  "+arch) && len(l) >= 66 {
+						lines[i] = evilLine
+					}
+				}
+			}
 		case "archive-name-prefixed-resigned":
 			// the asset that matches the platform suffix has another full name; it IS listed exactly
 			archName = "nightly-" + arch
@@ -434,10 +484,20 @@ func vBuild(fx *vFix, rng *kit.RNG, idx int, realKey bool, muts []string) *vScen
 		sc.Assets = append(sc.Assets, set(&vAsset{Name: archName, Body: archBody, BodyD: fmt.Sprintf("archive (%d bytes)", len(archBody))}, "arch"))
 	}
 	if !dropSums {
-		sc.Assets = append(sc.Assets, set(&vAsset{Name: sumsName, Body: sums, BodyD: string(sums)}, "sums"))
+		sa := set(&vAsset{Name: sumsName, Body: sums, BodyD: string(sums)}, "sums")
+		if laterSums != nil {
+			sa.Later = laterSums()
+			sa.LaterD = string(sa.Later)
+		}
+		sc.Assets = append(sc.Assets, sa)
 	}
 	if !dropSig {
-		sc.Assets = append(sc.Assets, set(&vAsset{Name: sigName, Body: sigBody, BodyD: fmt.Sprintf("signature (%d bytes)", len(sigBody))}, "sig"))
+		ga := set(&vAsset{Name: sigName, Body: sigBody, BodyD: fmt.Sprintf("signature (%d bytes)", len(sigBody))}, "sig")
+		if laterSigForeign && laterSums != nil {
+			ga.Later = fx.foreign.sign(laterSums())
+			ga.LaterD = "foreign signature over the later list"
+		}
+		sc.Assets = append(sc.Assets, ga)
 	}
 	sc.Assets = append(sc.Assets, &vAsset{Name: srcName, Body: files[2].body, BodyD: "source tarball"})
 	if rng.Chance(1, 3) {
@@ -552,25 +612,33 @@ func TestVerifC51(t *testing.T) {
 		// which downloaded bodies qualify?
 		qualifies := false
 		var qualArchive []byte
-		for an, ab := range tr.served {
+		// every completely served body version counts: the SAME checksum-file body must both
+		// list the archive's hash under its exact name and be validly signed
+		for an, abs := range tr.all {
 			if !strings.HasSuffix(an, ".bz2") {
 				continue
 			}
-			h := sha256.Sum256(ab)
-			for sn, sb := range tr.served {
-				if sn == an {
-					continue
-				}
-				if !vListed(sb, an, h[:]) {
-					continue
-				}
-				for gn, gb := range tr.served {
-					if gn == sn || gn == an {
+			for _, ab := range abs {
+				h := sha256.Sum256(ab)
+				for sn, sbs := range tr.all {
+					if sn == an {
 						continue
 					}
-					if vVerify(activePub, sb, gb) {
-						qualifies = true
-						qualArchive = ab
+					for _, sb := range sbs {
+						if !vListed(sb, an, h[:]) {
+							continue
+						}
+						for gn, gbs := range tr.all {
+							if gn == sn || gn == an {
+								continue
+							}
+							for _, gb := range gbs {
+								if vVerify(activePub, sb, gb) {
+									qualifies = true
+									qualArchive = ab
+								}
+							}
+						}
 					}
 				}
 			}
